@@ -323,8 +323,12 @@ func (s *Session) Mail(from string, opts *smtp.MailOptions) error {
 		}
 	}
 
-	// Keep the MAIL FROM argument for deferred startDelivery.
-	s.mailFrom = from
+	// Keep the MAIL FROM argument for deferred startDelivery. If the delivery
+	// is already started, mailFrom holds the normalized address limits were
+	// taken for, they should be released for the same one.
+	if s.delivery == nil {
+		s.mailFrom = from
+	}
 	s.opts = *opts
 	s.mailReceived = true
 
